@@ -142,7 +142,7 @@ func faultVerdict(cfg *gen.Cfg, pre []Op, op Op) (may, must bool, why string) {
 // genFaults draws the faults of a reader plan (nil for most plans: fault-free and fault-injecting
 // runs are judged by the same clauses, but kept apart in the statistics).
 func genFaults(src *choice.Src, cfg *gen.Cfg) []Op {
-	if !src.Chance("faults", 1, 4) {
+	if !src.Chance("faults", 1, 3) {
 		return nil
 	}
 	var menu []Op
